@@ -469,3 +469,69 @@ macro_rules! spsc_async_recv_program {
 }
 spsc_async_recv_program!(c06_q_spsc_async_recv_program_n4, 4, 5);
 spsc_async_recv_program!(c06_t_spsc_async_recv_program_n5, 5, 6);
+
+// ---------------------------------------------------------------- nested preemption inside a poll
+use fibre::__verif as sched;
+use std::sync::atomic::{AtomicPtr, Ordering::Relaxed};
+static ARXP: AtomicPtr<ARx<u8>> = AtomicPtr::new(std::ptr::null_mut());
+static GOT: std::sync::atomic::AtomicU8 = std::sync::atomic::AtomicU8::new(255);
+fn a_async_try_recv(_a: sched::ActorId) {
+  let rx = unsafe { &mut *ARXP.load(Relaxed) };
+  if let Ok(v) = rx.try_recv() {
+    GOT.store(v, Relaxed);
+  }
+}
+
+/// C02 (in-place batch future split across the consumer): ring full, a three-item in-place batch is
+/// polled while the consumer frees one slot at any synchronisation point of the poll; whatever the
+/// poll admits, the values arrive in send order and the caller's Vec keeps the unsent tail in order.
+#[kani::proof]
+#[kani::unwind(5)]
+fn c02_x_spsc_async_send_batch_mut_vs_recv() {
+  // one concrete schedule per path (the consumer's try_recv starts at scheduling point `at` of the
+  // poll): drain ranges and allocation sizes inside the future stay concrete
+  with_pick(16, |at| {
+    let (mut tx, mut rx) = spsc::bounded_async::<u8>(2);
+    assert!(tx.try_send(0).is_ok() && tx.try_send(1).is_ok(), "C03: prefill failed");
+    ARXP.store(&mut rx as *mut _, Relaxed);
+    let mut items = vec![10u8, 11, 12];
+    {
+      let mut f = Some(tx.send_batch_mut(&mut items));
+      sched::set_preempt_at(at);
+      sched::install(a_async_try_recv, 1, 1);
+      let _ = poll_slot(&mut f, 0);
+      assert!(sched::points() <= 40, "VERIF-BOUND: more scheduling points than expected");
+      sched::run_pending();
+      sched::uninstall();
+      f = None;
+    }
+    assert!(GOT.load(Relaxed) == 0, "C02: consumer did not receive the oldest value");
+    let mut expect_next_batch: u8 = 10;
+    let mut first = true;
+    let mut n = 0;
+    while n < 4 {
+      match rx.try_recv() {
+        Ok(v) => {
+          if first {
+            assert!(v == 1, "C02: FIFO order violated");
+            first = false;
+          } else {
+            assert!(v == expect_next_batch, "C02: in-place batch delivered out of send order");
+            expect_next_batch += 1;
+          }
+        }
+        Err(_) => {}
+      }
+      n += 1;
+    }
+    let sent = (expect_next_batch - 10) as usize;
+    assert!(items.len() + sent == 3, "C01: in-place batch lost or duplicated a value");
+    let mut j = 0;
+    while j < items.len() && j < 3 {
+      assert!(items[j] == 10 + (sent + j) as u8, "C01: unsent tail is not the input suffix in order");
+      j += 1;
+    }
+    kani::cover!(sent == 1, "one item admitted after the consumer freed a slot");
+    kani::cover!(sent == 0, "nothing admitted: the consumer ran after the poll's last look");
+  });
+}
